@@ -358,11 +358,11 @@ pub fn run(run: &Run) {
     let cfgs = vec![Cfg { from_f: 0, min_peers: 2, min_regions: 2 }, Cfg { from_f: 0, min_peers: 3, min_regions: 0 }];
     enumerate(run, msize, &cfgs);
     let sh = shards_for(run.tier);
-    run.prop("random", run.tier.pick(20_000, 400_000), sh, case_strategy(10), check_case);
+    run.prop("random", run.tier.pick(400000, 4800000), sh, case_strategy(10), check_case);
     if run.tier == Tier::Thorough {
         run.prop("random", 60_000, sh, case_strategy(40), check_case);
     }
-    run.prop("quorum", run.tier.pick(10_000, 200_000), sh, quorum_strategy(run.tier.pick(3, 6)), check_quorum);
+    run.prop("quorum", run.tier.pick(200000, 2400000), sh, quorum_strategy(run.tier.pick(3, 6)), check_quorum);
 }
 
 pub fn replay(run: &Run, sub: &str, case: &Value) -> Option<bool> {
